@@ -137,13 +137,32 @@ pub fn lib_source(spec: &Value) -> String {
     } else {
         key_of(s)
     };
-    format!(
-        "(define-library {}\n  (import {})\n  (export {})\n  (begin\n    {}))\n",
-        name,
-        import_sets.join(" "),
-        exports.join(" "),
-        body.join("\n    ")
-    )
+    // the declarations of a library may come in several pieces and in other orders (imports
+    // stay ahead of the definitions that use them)
+    let imp = format!("(import {})", import_sets.join(" "));
+    let exp = |e: &[String]| format!("(export {})", e.join(" "));
+    let beg = |b: &[String]| format!("(begin\n    {})", b.join("\n    "));
+    let decls: Vec<String> = match spec["decl_shape"].as_u64().unwrap_or(0) {
+        2 => vec![exp(&exports), imp, beg(&body)],
+        3 => {
+            let mut d = vec![format!("(import {})", import_sets[0])];
+            if import_sets.len() > 1 {
+                d.push(format!("(import {})", import_sets[1..].join(" ")));
+            }
+            let (e1, e2) = exports.split_at(exports.len() / 2);
+            let (b1, b2) = body.split_at(body.len() / 2);
+            d.extend([exp(e1), beg(b1), exp(e2), beg(b2)]);
+            d
+        }
+        4 => vec![imp, beg(&body), exp(&exports)],
+        5 => {
+            let mut d = vec![imp, exp(&exports)];
+            d.extend(body.iter().map(|b| format!("(begin {})", b)));
+            d
+        }
+        _ => vec![imp, exp(&exports), beg(&body)],
+    };
+    format!("(define-library {}\n  {})\n", name, decls.join("\n  "))
 }
 
 /// how library `spec` imports its dependency `j`: 0 direct, 1 prefix, 2 only, 3 rename
@@ -181,7 +200,18 @@ fn lib_file_bytes(spec: &Value) -> Option<Vec<u8>> {
     // the define-library form spans from byte 0 to the last ')'
     let form_len = text.trim_end().len();
     match spec["health"].as_str().unwrap_or("healthy") {
-        "healthy" | "wrong-name" | "faulting-body" => Some(text.into_bytes()),
+        "healthy" | "wrong-name" | "faulting-body" => {
+            // a library file is searched for the library it is asked for: other libraries and
+            // ordinary forms before it are passed over
+            let s = spec["short"].as_str().unwrap_or("a");
+            let before = match spec["layout"].as_u64().unwrap_or(0) {
+                3 => format!("(define-library (lib other-{s})\n (import (scheme base))\n (export look-{s})\n (begin (define (look-{s}) 'decoy)))\n", s = s),
+                4 => format!("; helpers kept next to the library\n(define look-{s} 'decoy)\n(display \"never evaluated\")\n", s = s),
+                5 => format!("(define-library (other {s})\n (import (scheme base))\n (export look-{s})\n (begin (define (look-{s}) 'decoy)))\n", s = s),
+                _ => String::new(),
+            };
+            Some(format!("{}{}", before, text).into_bytes())
+        }
         "missing" | "directory" | "dangling-symlink" => None,
         "empty" => Some(vec![]),
         "broken-syntax" => {
@@ -459,6 +489,8 @@ fn gen_lib(rng: &mut Rng, short: &str, imports: Vec<String>, health: &str, allow
         "fault_kind": fault_kind,
         "cut": rng.below(10_000),
         "variant": rng.below(3),
+        "layout": rng.below(6),
+        "decl_shape": rng.below(6),
     })
 }
 
